@@ -294,7 +294,12 @@ func (x *szExec) eval(st *szState, e ast.Expr) sym {
 	case *ast.IndexExpr:
 		base := x.eval(st, e.X)
 		idx := x.eval(st, e.Index)
-		p := base.text() + "[" + idx.text() + "]"
+		// the index as the range statement writes it: no parentheses around a linear form
+		it := idx.text()
+		if idx.kind == symInt {
+			it = idx.n.String()
+		}
+		p := base.text() + "[" + it + "]"
 		if isIntLike(x.info.TypeOf(e)) {
 			return sym{kind: symInt, n: linAtom("val:" + p)}
 		}
@@ -1013,6 +1018,30 @@ func (x *szExec) ifStmt(st *szState, s *ast.IfStmt, rest []ast.Stmt) []*szState 
 	}
 	if isPanicOnly(s.Body) && s.Else == nil {
 		return []*szState{st} // "refused loudly" guard: not size-relevant
+	}
+	if x.depth == 0 {
+		// `if a && b {T} else {E}` is `if a { if b {T} else {E} } else {E}`, `if a || b {T} else {E}` is
+		// `if a {T} else if b {T} else {E}`: path conditions are sets of atomic tests whichever way it is written
+		c := s.Cond
+		for {
+			pe, ok := c.(*ast.ParenExpr)
+			if !ok {
+				break
+			}
+			c = pe.X
+		}
+		if be, ok := c.(*ast.BinaryExpr); ok {
+			switch be.Op {
+			case token.LAND:
+				inner := &ast.IfStmt{If: s.If, Cond: be.Y, Body: s.Body, Else: s.Else}
+				outer := &ast.IfStmt{If: s.If, Cond: be.X, Body: &ast.BlockStmt{Lbrace: s.Body.Lbrace, List: []ast.Stmt{inner}, Rbrace: s.Body.Rbrace}, Else: s.Else}
+				return x.ifStmt(st, outer, rest)
+			case token.LOR:
+				inner := &ast.IfStmt{If: s.If, Cond: be.Y, Body: s.Body, Else: s.Else}
+				outer := &ast.IfStmt{If: s.If, Cond: be.X, Body: s.Body, Else: inner}
+				return x.ifStmt(st, outer, rest)
+			}
+		}
 	}
 	g := x.canon(st, s.Cond)
 	if x.depth == 0 {
